@@ -15,6 +15,7 @@ import (
 	"runtime/debug"
 	"sort"
 	"strings"
+	"sync"
 	"testing"
 	"testing/synctest"
 	"time"
@@ -117,6 +118,18 @@ type world struct {
 	sharedBE *ctlog.SQLiteBackend
 	allSQ   []*ctlog.SQLiteBackend
 	closedSQ map[*ctlog.SQLiteBackend]bool
+	noteMu   sync.Mutex
+	notes    []string
+}
+
+func (w *world) flush() {
+	w.noteMu.Lock()
+	n := w.notes
+	w.notes = nil
+	w.noteMu.Unlock()
+	if len(n) > 0 {
+		w.sim.LogSorted(n)
+	}
 }
 
 var lastTrace []core.Cmd
@@ -250,14 +263,14 @@ func (w *world) openBackend(c *client) error {
 		}
 		c.be, c.sq = b, b
 	case "dynamodb":
-		http.DefaultTransport = &http.Transport{DialContext: w.net.dialer(c.idx), DisableCompression: true}
+		http.DefaultTransport = &http.Transport{DialContext: w.net.dialer(c.idx), DisableCompression: true, DisableKeepAlives: true}
 		b, err := ctlog.NewDynamoDBBackend(ctx, "us-east-1", "locks", "http://ddb.sim", discard)
 		if err != nil {
 			return err
 		}
 		c.be = b
 	case "etag":
-		http.DefaultTransport = &http.Transport{DialContext: w.net.dialer(c.idx), DisableCompression: true}
+		http.DefaultTransport = &http.Transport{DialContext: w.net.dialer(c.idx), DisableCompression: true, DisableKeepAlives: true}
 		b, err := ctlog.NewETagBackend(ctx, "us-east-1", "locks", "http://s3.sim", discard)
 		if err != nil {
 			return err
@@ -350,6 +363,7 @@ func (w *world) main(replay []core.Cmd) {
 	ri := 0
 	for sim.Step < p.Steps {
 		synctest.Wait()
+		w.flush()
 		var cmd core.Cmd
 		if replay != nil {
 			if ri >= len(replay) {
@@ -373,6 +387,7 @@ func (w *world) main(replay []core.Cmd) {
 	// drain without faults
 	for i := 0; i < 4000; i++ {
 		synctest.Wait()
+		w.flush()
 		en := w.enabled(true)
 		if len(en) == 0 {
 			break
@@ -387,6 +402,7 @@ func (w *world) main(replay []core.Cmd) {
 	}
 	for i := 0; i < 400; i++ {
 		synctest.Wait()
+		w.flush()
 		en := w.enabledFor(last, true)
 		if len(en) == 0 {
 			break
@@ -394,6 +410,7 @@ func (w *world) main(replay []core.Cmd) {
 		w.exec(en[0].Cmd)
 	}
 	synctest.Wait()
+	w.flush()
 	for _, c := range w.clients {
 		if c.busy {
 			w.v("hang", "client %d: %s never returned", c.idx, c.cur.kind)
@@ -540,7 +557,9 @@ func (w *world) startOp(c *client) {
 		rec.done = true
 		c.busy = false
 		c.cur = nil
-		w.sim.Logf("ret c%d %s id%d err=%v got=%q", c.idx, kind, s.id, rec.err != nil, clipb(rec.got))
+		w.noteMu.Lock()
+		w.notes = append(w.notes, fmt.Sprintf("ret c%d %s id%d err=%v got=%q", c.idx, kind, s.id, rec.err != nil, clipb(rec.got)))
+		w.noteMu.Unlock()
 	}()
 }
 
